@@ -473,9 +473,9 @@ Section TP.
   Proof. intros [P [_ Hw]] Pm Hok. split; [eapply Permutation_trans; eauto|auto]. Qed.
 
   Lemma t_batch_R items ot m m' :
-    R ot m -> m_batch items m = Some m' -> exists ot', t_batch H items ot = (true, ot') /\ R ot' m'.
+    R ot m -> m_batch items m = Some m' -> exists ot', t_batch_body H items ot = (true, ot') /\ R ot' m'.
   Proof.
-    intros HR Hb. pose proof HR as [P [Hok Hw]]. unfold t_batch.
+    intros HR Hb. pose proof HR as [P [Hok Hw]]. unfold t_batch_body.
     destruct (m_batch_ok _ _ _ Hok Hb) as [_ Hok'].
     rewrite (leaf_count_perm _ _ P).
     destruct (Nat.leb_spec (length m) 1) as [Hle|Hgt].
@@ -494,6 +494,17 @@ Section TP.
           eapply R_perm; [exact HR1|exact P2|exact Hok'].
       + subst items. cbn in Hb. injection Hb as <-. eauto.
     - apply (batch_tail_R items ot m m'); auto.
+  Qed.
+
+  Lemma m_batch_ext items : forall a b,
+    (forall k, m_mem k a = m_mem k b) -> (forall h, m_has_hash h a = m_has_hash h b) ->
+    (m_batch items a = None <-> m_batch items b = None).
+  Proof.
+    induction items as [|[[k v] h] r IH]; intros a b Hk Hh; cbn [m_batch]; [split; discriminate|].
+    unfold m_insert. rewrite (Hk k), (Hh h). destruct (m_mem k b || m_has_hash h b); [tauto|].
+    apply IH.
+    - intros k'. unfold m_mem. cbn [m_get]. destruct (k' =? k); [reflexivity|apply Hk].
+    - intros h'. unfold m_has_hash. cbn [existsb snd]. f_equal. apply Hh.
   Qed.
 
   Lemma step0_insert_rejected k v h loc m :
@@ -530,12 +541,12 @@ Section TP.
   Qed.
 
   Theorem step_refines o ot m :
-    R ot m -> known_top m o = false ->
+    R ot m ->
     let '(ok1, ot1) := step1 H o ot in
     let '(ok0, m0) := step0 o m in
     ok1 = ok0 /\ R ot1 m0 /\ (ok1 = false -> ot1 = ot).
   Proof.
-    intros HR Hkn. pose proof HR as [P [Hok Hw]].
+    intros HR. pose proof HR as [P [Hok Hw]].
     destruct o as [k v h loc|k|k v h|items| |]; cbn [step1].
     - (* insert *)
       destruct (m_mem k m) eqn:Ek.
@@ -583,10 +594,10 @@ Section TP.
         assert (Hn : ~ In k (tkeys t)) by (intros Hin; apply Ek; now apply (R_keys _ _ HR)).
         apply del_none in Hn. rewrite Hn. auto.
     - (* upsert *)
-      cbn [known_top] in Hkn. unfold step0. cbn [apply0]. unfold t_upsert, m_upsert.
+      unfold step0. cbn [apply0]. unfold t_upsert, m_upsert.
       destruct ot as [t|].
-      + cbn [ot_kv] in P. rewrite (m_mem_perm k _ _ P). destruct (m_mem k m) eqn:Ek.
-        * cbn [andb] in Hkn. rewrite Hkn.
+      + cbn [ot_kv] in P. rewrite (m_mem_perm k _ _ P), (m_hash_of_other_perm k h _ _ P). destruct (m_mem k m) eqn:Ek.
+        * destruct (m_hash_of_other k h m) eqn:Hkn; [auto|].
           assert (Eu : m_upsert k v h m = Some ((k, (v, h)) :: m_remove k m)).
           { unfold m_upsert. now rewrite Ek, Hkn. }
           destruct (m_upsert_present_ok _ _ _ _ _ Hok Ek Eu) as [_ [_ Hok']].
@@ -609,10 +620,14 @@ Section TP.
         destruct (t_insert_fresh k v h TAuto None [] HR) as [t' [-> HR']]; [intros []|intros []|exact I|].
         unfold m_insert. cbn. split; [reflexivity|split; [exact HR'|discriminate]].
     - (* batch *)
-      cbn [known_top] in Hkn. unfold step0. cbn [apply0].
-      destruct (m_batch items m) as [m'|] eqn:Eb; [|discriminate].
-      destruct (t_batch_R items ot m m' HR Eb) as [ot' [-> HR']].
-      split; [reflexivity|split; [exact HR'|discriminate]].
+      unfold step0. cbn [apply0]. unfold t_batch.
+      assert (Hext : m_batch items (ot_kv ot) = None <-> m_batch items m = None).
+      { apply m_batch_ext; intros; [now apply m_mem_perm|now apply m_has_hash_perm]. }
+      destruct (m_batch items m) as [m'|] eqn:Eb.
+      + destruct (m_batch items (ot_kv ot)) eqn:Eb1; [|destruct Hext as [Hx _]; specialize (Hx eq_refl); discriminate].
+        destruct (t_batch_R items ot m m' HR Eb) as [ot' [-> HR']].
+        split; [reflexivity|split; [exact HR'|discriminate]].
+      + destruct Hext as [_ Hx]. rewrite (Hx eq_refl). auto.
     - (* hash *)
       unfold step0. cbn [apply0]. split; [reflexivity|split; [|discriminate]].
       destruct ot as [t|]; cbn [option_map]; [|exact HR].
@@ -625,11 +640,10 @@ Section TP.
 
   (* ---------- all histories ---------- *)
   Theorem history_refines ops : forall ot m,
-    R ot m -> known_hist ops m = false -> R (run1 H ops ot) (run0 ops m).
+    R ot m -> R (run1 H ops ot) (run0 ops m).
   Proof.
-    induction ops as [|o r IH]; intros ot m HR Hk; cbn [run1 run0]; [exact HR|].
-    cbn [known_hist] in Hk. apply orb_false_elim in Hk as [Hk1 Hk2].
-    pose proof (step_refines o ot m HR Hk1) as Hs.
+    induction ops as [|o r IH]; intros ot m HR; cbn [run1 run0]; [exact HR|].
+    pose proof (step_refines o ot m HR) as Hs.
     destruct (step1 H o ot) as [ok1 ot1]. destruct (step0 o m) as [ok0 m0]. cbn [snd] in *.
     destruct Hs as [_ [HR' _]]. apply IH; assumption.
   Qed.
@@ -757,7 +771,6 @@ Section TP.
   Qed.
 
   Theorem history_root_and_proofs ops :
-    known_hist ops [] = false ->
     let m := run0 ops [] in
     match run1 H (ops ++ [THash]) None with
     | None => m = []
@@ -768,8 +781,8 @@ Section TP.
                     exists v, m_get k m = Some (v, p_node_hash p)
     end.
   Proof.
-    intros Hk. cbv zeta. rewrite run1_app. cbn [run1 step1 snd].
-    pose proof (history_refines ops None [] R_empty Hk) as [P [Hok Hw]].
+    cbv zeta. rewrite run1_app. cbn [run1 step1 snd].
+    pose proof (history_refines ops None [] R_empty) as [P [Hok Hw]].
     destruct (run1 H ops None) as [t|]; cbn [option_map].
     - cbn [ot_kv owf] in *. destruct (rehash_twf t Hw) as [Hw' Hc'].
       split; [now rewrite rehash_kv|]. split.
